@@ -36,7 +36,7 @@ func Corpus() []Scenario {
 		{Name: "held-expunge-then-commands", K: 2, Ops: []Op{ // removals held back across FETCH/STORE/SEARCH, announced by NOOP
 			sel(0, 0), sel(1, 0), app(0, 0), app(0, 0), app(0, 0), drain(1), cmd(1, "noop"), cmd(1, "probe"),
 			store(0, []int{2}, "add", false, 1), cmd(0, "expunge"), drain(1), cmd(1, "search"), fb(1, "fetchbody", 1),
-			store(1, []int{3}, "add", false, 3), cmd(1, "probe"), cmd(1, "noop"), cmd(1, "probe")}},
+			store(1, []int{3}, "add", false, 3), cmd(1, "searchbad"), cmd(1, "probe"), cmd(1, "noop"), cmd(1, "probe")}},
 		{Name: "readd-while-held", K: 2, Ops: []Op{ // message removed and put back while the observer only runs FETCH
 			sel(0, 0), sel(1, 0), app(0, 0), app(0, 0), drain(1), cmd(1, "noop"), cmd(1, "probe"),
 			mv(0, []int{1}, 1), sel(0, 1), mv(0, []int{1}, 0), drain(1), cmd(1, "probe"), cmd(1, "search"), cmd(1, "noop"), cmd(1, "probe")}},
